@@ -107,9 +107,13 @@ def judge(tgt_bytes, srcs, line_out):
     interesting = False
     for (name, ret, fl, pr, T2) in p["ops"]:
         o = name[0]
-        k = int(name[1:]) if len(name) > 1 else 0
+        k = int(name[1:]) if len(name) > 1 and o != "M" else 0
         def byte(F, x):
             return F[x] if x < len(F) else 0
+        if o == "M":
+            if T2 != T or fl != flags or pr != pairs:
+                return "%s (pairing two sources with each other) changed the target" % name, False
+            continue
         if o in "fzm" or ret == "nosrc":
             if T2 != T:
                 return "%s changed the target file" % name, False
@@ -152,6 +156,10 @@ def judge(tgt_bytes, srcs, line_out):
                     interesting = True
                     if len(seg) != cl or any(seg):
                         return "%s marks chunk %d failed without zero-filling its extent" % (name, i), True
+            # frame: the file grows at most to the end of the last chunk that may be filled
+            reach = max([len(T)] + [tgt.ext[i][0] + tgt.ext[i][1] for i in may])
+            if len(T2) > reach:
+                return "%s extends the target to %d bytes, beyond its old length %d and beyond the end (%d) of the last chunk it may fill" % (name, len(T2), len(T), reach), True
             # frame: bytes outside the extents of the chunks that may be filled
             allowed = bytearray(max(len(T), len(T2)))
             for i in may:
@@ -222,7 +230,8 @@ def gen_cases(rng, tier, wd):
         sd = rng.rbytes(rng.choice([0, 0, 4]))
         td = rng.choice([sd, b"", rng.rbytes(4)])           # same or different dictionary chunk
         s_chunks = [pool[i] for i in (0, 1, 2, 3, 1, 4)]     # chunk 1 twice in the source
-        t_chunks = [pool[i] for i in (2, 5, 0, 1, 6, 1, 3)]  # chunk 1 twice in the target, 5 and 6 not in the source
+        t_chunks = [pool[i] for i in (2, 5, 0, 1, 6, 1, 3, 4, 0)]  # chunk 1 twice in the target, 5 and 6 not in the source; the
+        # source's LAST chunk (4) is wanted in front of its first (0): a source cut inside its last chunk cannot fill the former
         S, sh = zckfmt.build_file(s_chunks, ht=ht, cht=cht, flags=flags, dict_chunk=sd)
         Tfull, th = zckfmt.build_file(t_chunks, ht=rng.choice([0, 1, 2, 3]), cht=cht, flags=flags, dict_chunk=td)
         sref, tref = Ref(S), Ref(Tfull)
@@ -254,6 +263,24 @@ def gen_cases(rng, tier, wd):
             for cut in (lo - 1, lo, lo + 1, lo + cl // 2, lo + cl - 1):
                 if sref.doff <= cut < len(S):
                     out.append(("src-trunc", [S[:cut]], Thdr, rng.choice(["f,c0", "f,z,c0"])))
+        # the source's own flags set by a pairing call (index comparison only) before it is used: a damaged body must still
+        # be found out by the copy
+        for k, (lo, cl) in enumerate(sref.ext):
+            if cl and k in (1, 3):
+                g = bytearray(S); g[lo + rng.randrange(cl)] ^= 1 << rng.randrange(8)
+                out.append(("src-bitflip-paired", [bytes(g), S], Thdr, "M10,f,c0"))
+                out.append(("src-bitflip-paired", [bytes(g), Tfull], Thdr, "f,M10,c0"))
+        # one chunk of an otherwise complete target missing, its source copy damaged: the neighbours are valid and must
+        # survive whatever the failed copy does
+        for k in range(1, len(tref.ext)):
+            lo, cl = tref.ext[k]
+            if cl == 0 or match_index(sref, tref, k) is None:
+                continue
+            tb = bytearray(Tfull); tb[lo:lo + cl] = bytes(cl)
+            slo, scl = sref.ext[match_index(sref, tref, k)]
+            g = bytearray(S); g[slo] ^= 0x40
+            out.append(("hole-src-bitflip", [bytes(g)], bytes(tb), "f,c0"))
+            out.append(("hole-src-trunc", [S[:slo + scl - 1]], bytes(tb), "f,c0"))
         # several sources in both orders, one of them damaged, with and without the reset in between
         g = bytearray(S); lo, cl = sref.ext[1]; g[lo] ^= 0x10
         S2, _ = zckfmt.build_file([pool[5], pool[6], pool[0]], ht=ht, cht=cht, flags=flags, dict_chunk=td)
@@ -323,6 +350,20 @@ def gen_cases(rng, tier, wd):
             g = bytearray(SA); g[len(g) // 2] ^= 4
             out.append((tag + "-flip", [bytes(g), SA], hd, "f,c0,c1"))
             out.append((tag + "-trunc", [SA[:len(SA) - rng.randrange(1, 200)]], hd, "f,c0"))
+            # full target with one shared chunk zeroed, the source's copy of it damaged: the failed copy is wiped with the
+            # STORED size, the valid neighbours behind it stay
+            ra, rb = Ref(SA), Ref(TB)
+            if ra.ok and rb.ok:
+                for k in range(1, len(rb.ext)):
+                    mi = match_index(ra, rb, k)
+                    lo, cl = rb.ext[k]
+                    if mi is None or cl == 0 or k == len(rb.ext) - 1:
+                        continue
+                    tb = bytearray(TB); tb[lo:lo + cl] = bytes(cl)
+                    slo, scl = ra.ext[mi]
+                    g = bytearray(SA); g[slo + scl // 2] ^= 0x10
+                    out.append((tag + "-hole-flip", [bytes(g)], bytes(tb), "f,c0"))
+                    break
         # uncompressed-digest pairing across compression types: zstd source, uncompressed target, both with the flag
         chunksB = [b"<text:" + p for p in B.split(b"<text:") if p]
         TU, _ = zckfmt.build_file(chunksB, ht=1, cht=1, flags=4)
